@@ -369,8 +369,10 @@ def gen_handoff_case(rng, c08):
             p["label"] = "%s.%%%%" % p["key"]
         if isinstance(p.get("label"), list):
             p["label"] = ["%s-%s" % (p["key"][:1], str(v).replace(".", "_")) for v in p["values"]]
-    case["cfg"] = {"throttle": rng.choice([0, 0, 1, 3]), "attempts": rng.choice([1, 2, 3]),
-                   "dry": rng.random() < 0.2, "use_tmp": False, "hash_ws": False}
+    # every configure_study setting, non-default in most cases
+    case["rlimit"] = rng.choice([0, 1, 2, 3, 5])
+    case["cfg"] = {"throttle": rng.choice([0, 1, 2, 3, 7]), "attempts": rng.choice([1, 2, 3, 4]),
+                   "dry": rng.random() < 0.35, "use_tmp": rng.random() < 0.4, "hash_ws": rng.random() < 0.5}
     case["batch"] = gen_batch(rng)
     return case
 
@@ -413,7 +415,8 @@ def _norm(x):
 
 def _observe(case, study, dag, root, c08):
     o = c08.observe_dag(case, study, dag, root)
-    o["cfg"] = [int(dag._submission_throttle), int(dag._submission_attempts), bool(dag.dry_run)]
+    o["cfg"] = [int(dag._submission_throttle), int(dag._submission_attempts), bool(dag.dry_run),
+                bool(getattr(dag, "_tmp_dir", ""))]
     o["adapter"] = _norm(dag._adapter)
     return o
 
@@ -463,6 +466,10 @@ def sub_store(inp, outp):
             r["batch"] = _norm(batch)
         except Exception as e:
             r.update({"ok": False, "err": 3, "exc": type(e).__name__, "msg": str(e)[:200]})
+        try:
+            conductor.cleanup()
+        except Exception:
+            pass
         # is the YAML form of this case a specification the command line accepts?
         r["yaml_ok"] = False
         if job.get("spec"):
@@ -503,6 +510,10 @@ def sub_load(root, casef, outp):
         r.update(_observe(case, study, dag, root, c08))
     except Exception as e:
         r.update({"ok": False, "err": 3, "exc": type(e).__name__, "msg": str(e)[:200]})
+    try:
+        conductor.cleanup()
+    except Exception:
+        pass
     json.dump(r, open(outp, "w"))
 
 
@@ -595,15 +606,22 @@ def handoff_part(ck, cases, c08, tag="C18_handoff"):
     def run_cli(job):
         a = job["A"]
         case = job["case"]
-        if not (a.get("stored") and a.get("yaml_ok") and a.get("ok") and not case["cfg"]["dry"]):
+        if not (a.get("stored") and a.get("yaml_ok") and a.get("ok")):
             return None
         root2 = os.path.join(job["dir"], "cli")
-        argv = ["run", "-n", "-s", 1, "--attempts", case["cfg"]["attempts"], "--throttle", case["cfg"]["throttle"],
+        # --dry launches even with -n (detached); a dry run is therefore done in the foreground: the study
+        # is stored before it starts, and that stored study is what the fresh process loads
+        argv = (["run", "--dry", "-fg", "-y"] if case["cfg"]["dry"] else ["run", "-n"]) + \
+               ["-s", 1, "--attempts", case["cfg"]["attempts"], "--throttle", case["cfg"]["throttle"],
                 "--rlimit", case["rlimit"], "-o", root2]
+        if case["cfg"]["hash_ws"]:
+            argv.append("--hashws")
+        if case["cfg"]["use_tmp"]:
+            argv.append("--usetmp")
         if job["pgen"]:
             argv += ["--pgen", job["pgen"]]
         argv.append(job["spec"])
-        rc, out = e2e.launch("maestro", argv, job["dir"], {})
+        rc, out = e2e.launch("maestro", argv, job["dir"], {"E2E_POLL_SLEEP": "1", "E2E_MAX_POLLS": "200"})
         if rc != 0:
             return {"ok": False, "err": 7, "exc": "maestro run -n", "msg": "rc=%d %s" % (rc, out[-500:])}
         outp = os.path.join(job["dir"], "c.json")
@@ -667,7 +685,10 @@ def handoff_part(ck, cases, c08, tag="C18_handoff"):
                 continue
             dist["cli:" + ("pgen" if job["pgen"] else "yaml-params" if case["params"] else "no-params")] += 1
         # model
-        if b.get("ok") or b.get("err") in (1, 2):
+        dist["cfg:hash_ws=%s,use_tmp=%s,dry=%s" % tuple(case["cfg"][k] for k in ("hash_ws", "use_tmp", "dry"))] += 1
+        if case["cfg"]["hash_ws"]:
+            dist["model:skipped(hash_ws not in the Expand model)"] += 1
+        elif b.get("ok") or b.get("err") in (1, 2):
             try:
                 lits.append(c08.g_case(case, c08.relativise(b, job["root"])))
                 lit_jobs.append((slim, b))
